@@ -474,9 +474,10 @@ def judge(res, case, rep, impl, stats, layer):
         stats["oom"] += 1
         return
     d = describe(case)
-    for mode, got in impl.items():
-        if mode == "blocks":
-            continue
+    results = {k: v for k, v in impl.items() if k != "blocks"}
+    if all(v == next(iter(results.values())) for v in results.values()):
+        results = {"all-modes": next(iter(results.values()))}     # one report when every entry point behaves alike
+    for mode, got in results.items():
         if got == model:
             continue
         gk = got[0] if got[0] == "out" else got[1]
